@@ -33,6 +33,28 @@ type Program struct {
 	repo         string
 	verifDir     string
 	closureNames map[*ssa.Function]string
+	variant      map[string]string // base contract name -> chosen alternative ("B")
+}
+
+// alternatives lists the functions that have an alternative contract name@B.
+func (P *Program) alternatives() []string {
+	var out []string
+	for _, n := range P.spec.FuncOrder {
+		if strings.HasSuffix(n, "@B") {
+			out = append(out, strings.TrimSuffix(n, "@B"))
+		}
+	}
+	return out
+}
+
+// specNamed returns the contract registered under name, honouring the chosen alternative.
+func (P *Program) specNamed(name string) *FuncSpec {
+	if P.variant[name] == "B" {
+		if s, ok := P.spec.Funcs[name+"@B"]; ok {
+			return s
+		}
+	}
+	return P.spec.Funcs[name]
 }
 
 // specName gives the name under which a function is looked up in contract files.
@@ -68,7 +90,7 @@ func (P *Program) specName(fn *ssa.Function) string {
 // findSpec finds the contract of fn: exact name, then the generic origin's name.
 func (P *Program) findSpec(fn *ssa.Function) *FuncSpec {
 	n := P.specName(fn)
-	if s, ok := P.spec.Funcs[n]; ok {
+	if s := P.specNamed(n); s != nil {
 		return s
 	}
 	if i := strings.Index(n, "["); i >= 0 && strings.HasSuffix(n, "]") {
